@@ -292,7 +292,7 @@ def client_hello(version, cr, sid, suite_codes, exts=b""):
 
 def server_hello(version, sr, sid, suite_code, exts=b"", omit_ext_block=False):
     legacy = u16(VERSIONS["TLS12" if version == "TLS13" else version])
-    body = cat(legacy, sr, u8(len(sid)), sid, u16(suite_code), b"\x00")
+    body = cat(legacy, sr, u8(len(sid)), sid, u16(suite_code) if isinstance(suite_code, int) else suite_code, b"\x00")
     if not omit_ext_block:
         body = cat(body, u16(len(exts)), exts)
     return hs(2, body)
